@@ -1011,6 +1011,8 @@ class Parsent(object):
                 break
             (yield None)
 
+        self.closed = False  # any close seen while idle was of the prior connection
+
         try:
             headParser = self.parseHead()
             while True:
